@@ -4,6 +4,7 @@ import Dnp3.Model.Fields
 import Dnp3.Proofs.C09Fields
 import Dnp3.Proofs.C09Walk
 import Dnp3.Proofs.C09Iter
+import Dnp3.Proofs.C09Builder
 /-!
 # C09 — What one side encodes, the other side's parser decodes to the same objects
 -/
@@ -289,5 +290,147 @@ theorem fixed_size_positive (g v : Nat) (h : fixedKnown g v = true) : 0 < fixedS
   | some f' =>
     simp only
     exact sizes_positive f' (List.mem_of_find?_eq_some hfind)
+
+/-! ## the master's count-and-prefix header writer (`CommandBuilder` → `HeaderWriter::write_prefixed_items`)
+
+A header built by the master is either written completely — exactly its image after what was already in the
+buffer, and that image parses back to the items that were built — or the write fails with a `WriteError`
+(`TaskError::WriteError` to the user of the master API); `writePrefixedItems` has no third outcome.
+
+History: until the repair of defect D17 the count was advanced with `count.increment()` (`self + 1` in the
+index type): 256 commands added through `add_u8` (1 KB of g41v2 objects, well inside the 2048-octet buffer)
+overflowed the u8 count on the 256th item — a panic with overflow checks, a count of 0 in front of 256 objects
+without.  The count is now advanced with `checked_next` and the overflow is `WriteError::NumericOverflow`
+(`count_overflow_is_write_error`; the former witness is `harness/corpus/C09/parse_D17.ops`). -/
+
+/-- the variations `CommandBuilder` writes (`CommandHeader::write`) -/
+def commandVariations : List (Nat × Nat) := [(12, 1), (41, 1), (41, 2), (41, 3), (41, 4)]
+
+/-- they are known to `Variation::lookup`, and the count-and-prefix table hands them to the prefixed fixed-size parser -/
+theorem command_variations_prefixed : ∀ gv ∈ commandVariations,
+    lookup gv.1 gv.2 = some (.fixed gv.1 gv.2) ∧
+    tableGet prefixedTable (.fixed gv.1 gv.2) = some (.prefFixed gv.1 gv.2) ∧ 0 < fixedSize gv.1 gv.2 := by
+  decide +kernel
+
+/-- **written completely, or a write error — nothing else.**  For every buffer capacity, every content already
+    in the buffer, every variation, both index widths and every list of items (values of the variation's size):
+    `write_prefixed_items` succeeds exactly when the count is expressible in the index type and header + items
+    fit the rest of the buffer, and then it has appended exactly the header image; otherwise it returns a
+    `WriteError`. -/
+theorem prefixed_header_written_or_write_error (cap : Nat) (acc : List Nat) (g v : Nat) (wide : Bool)
+    (items : List CmdItem) (hsz : ∀ it ∈ items, it.2.length = fixedSize g v) :
+    writePrefixedItems cap acc g v wide items =
+      if items.length ≤ maxCount wide ∧
+          acc.length + 3 + idxSize wide + (idxSize wide + fixedSize g v) * items.length ≤ cap
+      then some (acc ++ prefixedImage g v wide items) else none :=
+  writePrefixedItems_spec cap acc g v wide (fixedSize g v) items hsz
+
+example : ∀ it ∈ ([(7, [1, 0, 0]), (255, [0xFF, 0x7F, 4])] : List CmdItem), it.2.length = fixedSize 41 2 := by decide
+
+/-- more items than the count field can express is a write error, whatever the items, the capacity and the
+    buffer content (the former D17 overflow: 256 items with a one-octet count) -/
+theorem count_overflow_is_write_error (cap : Nat) (acc : List Nat) (g v : Nat) (wide : Bool) (items : List CmdItem)
+    (h : maxCount wide < items.length) : writePrefixedItems cap acc g v wide items = none :=
+  writePrefixedItems_count_overflow cap acc g v wide items h
+
+/-- the former D17 witness shape: 256 g41v2 commands with one-octet indices into a 2048-octet buffer (1024 + 6
+    octets would fit) is a write error; 255 of them are written, with count octet 255 -/
+theorem d17_witness_is_write_error :
+    writeCommands 2048 [0xC5, 5] 41 2 false ((List.range 256).map fun i => (i % 256, [i % 256, 0, 0])) = none ∧
+    (writeCommands 2048 [0xC5, 5] 41 2 false ((List.range 255).map fun i => (i, [i, 0, 0]))).map (·.take 6) =
+      some [0xC5, 5, 41, 2, 0x17, 255] := by
+  decide +kernel
+
+/-- **what was written parses back to what was built.**  For every variation the count-and-prefix table lists
+    as a prefixed fixed-size object (in particular every command variation), the image of a header — followed by
+    anything — is parsed as that header: same variation, same count, the item octets as payload, the rest
+    untouched; and iterating the parsed header yields exactly the items that were built, index and octets, in
+    order. -/
+theorem prefixed_header_parses_back (isRead zls : Bool) (g v : Nat) (wide : Bool) (items : List CmdItem)
+    (rest : List Nat) (hl : lookup g v = some (.fixed g v))
+    (ht : tableGet prefixedTable (.fixed g v) = some (.prefFixed g v))
+    (hsz : ∀ it ∈ items, it.2.length = fixedSize g v) :
+    parseOne isRead zls (prefixedImage g v wide items ++ rest) =
+      .ok (⟨.fixed g v, .countPrefix wide items.length, .prefFixed g v, itemOctets wide items⟩, rest) ∧
+    iterate ⟨.fixed g v, .countPrefix wide items.length, .prefFixed g v, itemOctets wide items⟩ =
+      some (.ok (items.map fun it => ⟨some it.1, leIdx wide it.1 ++ it.2⟩)) := by
+  refine ⟨parseOne_prefixedImage isRead zls g v wide items rest hl ht hsz, ?_⟩
+  simp only [iterate, Spec.wide, iterPrefixed_itemOctets wide (fixedSize g v) items hsz]
+
+example : lookup 41 2 = some (.fixed 41 2) ∧ tableGet prefixedTable (.fixed 41 2) = some (.prefFixed 41 2) :=
+  ⟨(command_variations_prefixed (41, 2) (by decide)).1, (command_variations_prefixed (41, 2) (by decide)).2.1⟩
+
+/-- the image consists of octets when the count and the indices are expressible in the index type and the
+    values are octets (this is where the bound on the count matters: a count of 256 has no one-octet image) -/
+theorem prefixed_image_is_octets (g v : Nat) (wide : Bool) (items : List CmdItem)
+    (hg : g < 256) (hv : v < 256) (hn : items.length ≤ maxCount wide)
+    (hi : ∀ it ∈ items, it.1 ≤ maxCount wide ∧ bytesOk it.2) : bytesOk (prefixedImage g v wide items) := by
+  have hidx : ∀ n, n ≤ maxCount wide → bytesOk (leIdx wide n) := by
+    intro n hn b hb
+    cases wide
+    · simp only [leIdx, Bool.false_eq_true, ↓reduceIte, List.mem_singleton] at hb
+      simp only [maxCount, Bool.false_eq_true, ↓reduceIte] at hn; omega
+    · simp only [leIdx, ↓reduceIte, le16, List.mem_cons, List.not_mem_nil, or_false] at hb
+      simp only [maxCount, ↓reduceIte] at hn
+      rcases hb with hb | hb <;> omega
+  have hq : prefixQualifier wide < 256 := by cases wide <;> decide
+  intro b hb
+  simp only [prefixedImage, itemOctets, List.cons_append, List.nil_append, List.mem_cons, List.mem_append,
+    List.mem_flatten, List.mem_map] at hb
+  rcases hb with hb | hb | hb | hb | ⟨l, ⟨it, hit, rfl⟩, hb⟩
+  · omega
+  · omega
+  · omega
+  · exact hidx _ hn b hb
+  · rcases List.mem_append.mp hb with hb | hb
+    · exact hidx _ (hi it hit).1 b hb
+    · exact (hi it hit).2 b hb
+
+/-- **a command request is written completely and parses back to what was built, or the write fails cleanly.**
+    `CommandBuilder` with the commands `items` (at least one; one variation, one index width) written after the
+    request header into a `cap`-octet buffer: either the write fails (exactly when the count is not expressible
+    or header + objects do not fit), or the result fits the buffer, its application header parses back to the
+    control field and function that were written, its object section is exactly one header, and iterating that
+    header yields exactly the commands that were built. -/
+theorem command_request_roundtrip_or_write_error (cap : Nat) (fir fin con uns : Bool) (seq : Fin 16) (f : Nat)
+    (g v : Nat) (wide : Bool) (items : List CmdItem)
+    (hf : knownFunction f = true) (hr : isResponseFn f = false) (hgv : (g, v) ∈ commandVariations)
+    (hne : items ≠ []) (hsz : ∀ it ∈ items, it.2.length = fixedSize g v) :
+    let ctl : Control := ⟨fir, fin, con, uns, seq.val⟩
+    let hrec : HeaderRec := ⟨.fixed g v, .countPrefix wide items.length, .prefFixed g v, itemOctets wide items⟩
+    (writeCommands cap (writeRequestHeader ctl f) g v wide items = none ∧
+      (maxCount wide < items.length ∨ cap < 2 + 3 + idxSize wide + (idxSize wide + fixedSize g v) * items.length)) ∨
+    (∃ bytes, writeCommands cap (writeRequestHeader ctl f) g v wide items = some bytes ∧ bytes.length ≤ cap ∧
+      parseHeader bytes = .ok ⟨ctl, f, none, hrec.image⟩ ∧
+      walk (f == fnRead) false hrec.image = .ok [hrec] ∧
+      iterate hrec = some (.ok (items.map fun it => ⟨some it.1, leIdx wide it.1 ++ it.2⟩))) := by
+  intro ctl hrec
+  obtain ⟨hl, ht, _⟩ := command_variations_prefixed (g, v) hgv
+  have hw : writeCommands cap (writeRequestHeader ctl f) g v wide items =
+      writePrefixedItems cap (writeRequestHeader ctl f) g v wide items := by
+    cases items with
+    | nil => exact absurd rfl hne
+    | cons _ _ => rfl
+  have himg : hrec.image = prefixedImage g v wide items := by
+    cases wide <;> simp [hrec, HeaderRec.image, prefixedImage, Variation.group, Variation.var, Spec.qualifier,
+      Spec.bytes, prefixQualifier]
+  have hlen : (writeRequestHeader ctl f).length = 2 := rfl
+  rw [hw, prefixed_header_written_or_write_error cap _ g v wide items hsz, hlen]
+  by_cases hc : items.length ≤ maxCount wide ∧ 2 + 3 + idxSize wide + (idxSize wide + fixedSize g v) * items.length ≤ cap
+  · right
+    have hpb := prefixed_header_parses_back (f == fnRead) false g v wide items [] hl ht hsz
+    rw [List.append_nil] at hpb
+    refine ⟨writeRequestHeader ctl f ++ prefixedImage g v wide items, by simp only [hc, and_self, ↓reduceIte], ?_, ?_, ?_, hpb.2⟩
+    · have := itemOctets_length wide (fixedSize g v) items hsz
+      simp only [List.length_append, hlen, prefixedImage, List.length_cons, List.length_nil, leIdx_length, this]
+      omega
+    · rw [himg]; exact request_header_roundtrip fir fin con uns seq f _ hf hr
+    · rw [himg]; exact walk_single hpb.1
+  · left
+    refine ⟨by simp only [hc, ↓reduceIte], ?_⟩
+    omega
+
+example : knownFunction 5 = true ∧ isResponseFn 5 = false ∧ (41, 2) ∈ commandVariations ∧
+    ([(7, [1, 0, 0])] : List CmdItem) ≠ [] := by decide
 
 end Dnp3.Props.C09
